@@ -565,53 +565,109 @@ func c01TypeSelection(w *World, r *Report) {
 	exist, lastFalse := false, false
 	if wf := w.SSAFunc(cw); wf != nil && len(wf.Params) == 4 {
 		sym := NewSym(w)
-		pushesConst := func(b *ssa.BasicBlock) (bool, bool) {
-			for _, in := range b.Instrs {
-				c, ok := in.(*ssa.Call)
-				if !ok || c.Call.StaticCallee() == nil || c.Call.StaticCallee().Object() != types.Object(newBool) {
-					continue
+		isNewBool := func(in ssa.Instruction) *ssa.Call {
+			c, ok := in.(*ssa.Call)
+			if !ok || c.Call.StaticCallee() == nil || c.Call.StaticCallee().Object() != types.Object(newBool) || len(c.Call.Args) != 1 {
+				return nil
+			}
+			return c
+		}
+		// the scan: in sf, with the two lists and the comparator given; verdict(b) is
+		// the constant truth value the exit through block b stands for
+		scan := func(sf *ssa.Function, left, right, cmp ssa.Value, verdict func(b *ssa.BasicBlock) (bool, bool)) (bool, bool) {
+			elemOf := func(v ssa.Value, list ssa.Value) bool {
+				ld, ok := v.(*ssa.UnOp)
+				if !ok {
+					return false
 				}
-				if k, ok := c.Call.Args[0].(*ssa.Const); ok && k.Value != nil {
-					return k.Value.ExactString() == "true", true
+				ia, ok := ld.X.(*ssa.IndexAddr)
+				return ok && ia.X == list && isRangeIndex(ia.Index)
+			}
+			hit := pcZ
+			nHit, nMiss, bad := 0, 0, false
+			for _, ex := range searchExits(sym, sf) {
+				val, pushes := verdict(ex.block)
+				switch {
+				case ex.inLoop && pushes && val:
+					nHit++
+					hit = pcOrF(hit, ex.cond)
+				case !ex.inLoop && pushes && !val:
+					nMiss++
+				default:
+					bad = true
 				}
 			}
-			return false, false
-		}
-		elemOf := func(v ssa.Value, list ssa.Value) bool {
-			ld, ok := v.(*ssa.UnOp)
-			if !ok {
-				return false
+			ex := false
+			if !bad && nHit > 0 {
+				ex = pcCompare(hit, func(a *pcAtom) string {
+					if a.op == token.LSS && a.x != nil && isRangeIndex(a.x) {
+						return "iter"
+					}
+					if c, ok := a.v.(*ssa.Call); ok && c.Call.Value == cmp && len(c.Call.Args) == 2 &&
+						elemOf(c.Call.Args[0], left) && elemOf(c.Call.Args[1], right) {
+						return "match"
+					}
+					return ""
+				}, func(env map[string]bool) bool { return env["iter"] && env["match"] }) == ""
 			}
-			ia, ok := ld.X.(*ssa.IndexAddr)
-			return ok && ia.X == list && isRangeIndex(ia.Index)
+			return ex, !bad && nMiss > 0
 		}
-		hit := pcZ
-		nHit, nMiss, bad := 0, 0, false
-		for _, ex := range searchExits(sym, wf) {
-			val, pushes := pushesConst(ex.block)
-			switch {
-			case ex.inLoop && pushes && val:
-				nHit++
-				hit = pcOrF(hit, ex.cond)
-			case !ex.inLoop && pushes && !val:
-				nMiss++
-			default:
-				bad = true
+		// the verdict is computed by a helper handed the lists and the comparator, and pushed once
+		var pushes []*ssa.Call
+		for _, bl := range wf.Blocks {
+			for _, in := range bl.Instrs {
+				if c := isNewBool(in); c != nil {
+					pushes = append(pushes, c)
+				}
 			}
 		}
-		if !bad && nHit > 0 {
-			exist = pcCompare(hit, func(a *pcAtom) string {
-				if a.op == token.LSS && a.x != nil && isRangeIndex(a.x) {
-					return "iter"
+		delegated := false
+		if len(pushes) == 1 && len(ssaLoops(wf)) == 0 {
+			if hc, ok := pushes[0].Call.Args[0].(*ssa.Call); ok {
+				if h := hc.Call.StaticCallee(); h != nil && h.Blocks != nil && strings.HasPrefix(pkgPathOf(h), modPath) {
+					var left, right, cmp ssa.Value
+					for i, a := range hc.Call.Args {
+						if i >= len(h.Params) {
+							break
+						}
+						switch a {
+						case ssa.Value(wf.Params[1]):
+							left = h.Params[i]
+						case ssa.Value(wf.Params[2]):
+							right = h.Params[i]
+						case ssa.Value(wf.Params[3]):
+							cmp = h.Params[i]
+						}
+					}
+					if left != nil && right != nil && cmp != nil {
+						delegated = true
+						exist, lastFalse = scan(h, left, right, cmp, func(b *ssa.BasicBlock) (bool, bool) {
+							ret, ok := b.Instrs[len(b.Instrs)-1].(*ssa.Return)
+							if !ok || len(ret.Results) != 1 {
+								return false, false
+							}
+							k, ok := unspill(ret.Results[0]).(*ssa.Const)
+							if !ok || k.Value == nil || k.Value.Kind() != constant.Bool {
+								return false, false
+							}
+							return constant.BoolVal(k.Value), true
+						})
+					}
 				}
-				if c, ok := a.v.(*ssa.Call); ok && c.Call.Value == ssa.Value(wf.Params[3]) && len(c.Call.Args) == 2 &&
-					elemOf(c.Call.Args[0], wf.Params[1]) && elemOf(c.Call.Args[1], wf.Params[2]) {
-					return "match"
-				}
-				return ""
-			}, func(env map[string]bool) bool { return env["iter"] && env["match"] }) == ""
+			}
 		}
-		lastFalse = !bad && nMiss > 0
+		if !delegated {
+			exist, lastFalse = scan(wf, wf.Params[1], wf.Params[2], wf.Params[3], func(b *ssa.BasicBlock) (bool, bool) {
+				for _, in := range b.Instrs {
+					if c := isNewBool(in); c != nil {
+						if k, ok := c.Call.Args[0].(*ssa.Const); ok && k.Value != nil {
+							return k.Value.ExactString() == "true", true
+						}
+					}
+				}
+				return false, false
+			})
+		}
 	}
 	r.Check(exist && lastFalse, "R01.2", "compareWorker existential", wfd.Pos(), "some pair true ⇒ true; otherwise false", "node-set comparison is no longer 'true iff some pair compares true'")
 }
